@@ -25,12 +25,18 @@ Proof.
   destruct (is_null (key_of r)); reflexivity.
 Qed.
 
+Lemma ins_row_ok_fits : forall sch st r, ins_row_ok sch st r = true -> row_fits (s_tys sch) r = true.
+Proof.
+  intros sch st r H. unfold ins_row_ok in H. apply andb_true_iff in H. destruct H as [H _].
+  apply andb_true_iff in H. apply H.
+Qed.
+
 Lemma ins_write_inv : forall sch st r, wf_schema sch -> InvS sch st ->
-  row_fits (s_tys sch) r = true -> ins_row_ok sch st r = true ->
+  ins_row_ok sch st r = true ->
   InvS sch (ins_write sch st r) /\ visible (ins_write sch st r) = visible st ++ [r]
   /\ rcount (ins_write sch st r) = rcount st.
 Proof.
-  intros sch st r Hwf HI Hfit Hok. split; [|split].
+  intros sch st r Hwf HI Hok. pose proof (ins_row_ok_fits _ _ _ Hok) as Hfit. split; [|split].
   - destruct (inv_ids _ _ HI) as [Hnd Hlt]. constructor; unfold ins_write; cbn [ents nextid kidx].
     + split.
       * rewrite map_app. cbn [map e_id]. apply NoDup_snoc; [exact Hnd|].
@@ -71,20 +77,18 @@ Proof.
 Qed.
 
 Lemma ins_loop_spec : forall sch, wf_schema sch -> forall rows st n, InvS sch st ->
-  forallb (row_fits (s_tys sch)) rows = true ->
   (ins_ok sch (visible st) rows = true ->
      exists st', ins_loop sch st rows n = (true, st', n + zlen rows) /\ InvS sch st'
                  /\ visible st' = visible st ++ rows /\ rcount st' = rcount st)
   /\ (ins_ok sch (visible st) rows = false -> exists st' m, ins_loop sch st rows n = (false, st', m)).
 Proof.
-  intros sch Hwf. induction rows as [|r rs IH]; intros st n HI Hfit; cbn [ins_loop ins_ok].
+  intros sch Hwf. induction rows as [|r rs IH]; intros st n HI; cbn [ins_loop ins_ok].
   - split; [|discriminate]. intros _. exists st. unfold zlen. cbn [length Z.of_nat].
     rewrite Z.add_0_r, app_nil_r. split; [reflexivity|]. split; [exact HI|]. split; reflexivity.
-  - cbn [forallb] in Hfit. apply andb_true_iff in Hfit. destruct Hfit as [Hr Hrs].
-    rewrite (ins_row_ok_spec _ _ _ HI). destruct (row_ok sch (visible st) r) eqn:Rk; cbn [andb].
+  - rewrite (ins_row_ok_spec _ _ _ HI). destruct (row_ok sch (visible st) r) eqn:Rk; cbn [andb].
     + assert (Hok : ins_row_ok sch st r = true) by (rewrite (ins_row_ok_spec _ _ _ HI); exact Rk).
-      destruct (ins_write_inv sch st r Hwf HI Hr Hok) as [HI' [Hv Hc]].
-      destruct (IH (ins_write sch st r) (n + 1) HI' Hrs) as [A B]. rewrite Hv in A, B. split.
+      destruct (ins_write_inv sch st r Hwf HI Hok) as [HI' [Hv Hc]].
+      destruct (IH (ins_write sch st r) (n + 1) HI') as [A B]. rewrite Hv in A, B. split.
       * intro H. destruct (A H) as [st' [E [HI2 [Hv2 Hc2]]]]. exists st'.
         replace (n + zlen (r :: rs)) with (n + 1 + zlen rs) by (unfold zlen; cbn [length]; lia).
         split; [exact E|]. split; [exact HI2|]. split; [|congruence].
@@ -99,8 +103,8 @@ Lemma insert_refines : forall sch st rows ret r t', wf_schema sch -> Inv sch st 
   exists st', step true sch st (SInsert rows ret) = (r, st') /\ visible st' = t' /\ Inv sch st'.
 Proof.
   intros sch st rows ret r t' Hwf [HI Hc] H. cbn [spec_step step] in *. unfold do_insert.
-  destruct (forallb (row_fits (s_tys sch)) rows) eqn:Hfit; [|discriminate].
-  destruct (ins_loop_spec sch Hwf rows st 0 HI Hfit) as [A B].
+  destruct (forallb (row_known (s_tys sch)) rows) eqn:Hfit; [|discriminate].
+  destruct (ins_loop_spec sch Hwf rows st 0 HI) as [A B].
   destruct (ins_ok sch (visible st) rows) eqn:Ok; inversion H; subst; clear H.
   - destruct (A eq_refl) as [st' [E [HI' [Hv Hc']]]]. rewrite E. rewrite Z.add_0_l.
     exists (add_count st' (zlen rows)). split; [reflexivity|]. split; [exact Hv|].
